@@ -18,6 +18,7 @@ is a Lean `Nat`; the type tag carried by the translators decides what an operati
  * `a.min(b)`, `a.max(b)`; `a.saturating_sub(b)` = truncated subtraction; `a.saturating_add(b)` = `min (a + b) (2^w - 1)`;
    `a.wrapping_add(b)` = `(a + b) % 2^w`; `a.wrapping_sub(b)` = `(a + (2^w - b % 2^w)) % 2^w`;
    `a.checked_sub(b)` = `if b ≤ a then some (a - b) else none`; `a.checked_add(b)` = `if a + b < 2^w then some (a + b) else none`;
+   `a.checked_mul(b)` likewise;
    `a.abs_diff(b)` = `max a b - min a b`; `a.pow(b)` is not in the subset.
  * an unsuffixed literal takes the type of the other operand / the annotation / the assigned variable; where the
    translators had no such context they always read it as `usize` (rustc's inference is not replicated; a literal that does
@@ -98,7 +99,7 @@ METHODS = {
     'min': (1, 'same', 'same'), 'max': (1, 'same', 'same'), 'saturating_sub': (1, 'same', 'same'),
     'saturating_add': (1, 'same', 'same'), 'wrapping_add': (1, 'same', 'same'), 'wrapping_sub': (1, 'same', 'same'),
     'wrapping_mul': (1, 'same', 'same'), 'abs_diff': (1, 'same', 'same'),
-    'checked_sub': (1, 'same', 'opt'), 'checked_add': (1, 'same', 'opt'),
+    'checked_sub': (1, 'same', 'opt'), 'checked_add': (1, 'same', 'opt'), 'checked_mul': (1, 'same', 'opt'),
     'wrapping_shl': (1, 'u32', 'same'), 'wrapping_shr': (1, 'u32', 'same'),
 }
 
@@ -126,6 +127,8 @@ def method(name, l, r, t):
         return '(if %s ≤ %s then some (%s - %s) else none)' % (r, l, l, r)
     if name == 'checked_add':
         return '(if %s + %s < %d then some (%s + %s) else none)' % (l, r, m, l, r)
+    if name == 'checked_mul':
+        return '(if %s * %s < %d then some (%s * %s) else none)' % (l, r, m, l, r)
     if name == 'wrapping_shl':
         return shift('<<', l, r, t)
     if name == 'wrapping_shr':
